@@ -412,7 +412,7 @@ class TypedNode(Node):
 
         This method calls :meth:`add_child` on ``self.parent``.
         """
-        next_node = self.next_sibling
+        next_node = self.next_sibling(any_kind=True)
         return self._parent.add_child(
             child, before=next_node, deep=deep, data_id=data_id, node_id=node_id
         )
